@@ -40,13 +40,14 @@ type FuncReport struct {
 	Trusted   []string
 	Defaults  []string
 	Aborted   string
+	Unverified []string // Helios callees used through a contract that no check verifies
 	Vacuity   []*Obligation
 	HasContract bool
 }
 
 func (e *Engine) newCtx(fn *ssa.Function, fc *FuncContract, mode string) *FnCtx {
 	c := &FnCtx{eng: e, fn: fn, fc: fc, mode: mode, declared: map[string]bool{}, heapSort: map[string]string{},
-		divw: map[string]string{}, notes: map[string]bool{}, inlined: map[string]bool{}, trusted: map[string]bool{}, defaults: map[string]bool{}}
+		divw: map[string]string{}, usedContracts: map[string]bool{}, notes: map[string]bool{}, inlined: map[string]bool{}, trusted: map[string]bool{}, defaults: map[string]bool{}}
 	c.label = pkgShort(fn.Pkg.Pkg) + "." + relName(fn)
 	return c
 }
@@ -180,7 +181,12 @@ func (e *Engine) VerifyFunc(fn *ssa.Function, mode string) *FuncReport {
 					continue
 				}
 				t, _ := c.evalClause(ec, cl, "ensures of "+c.label)
-				c.oblige(q, "post", clauseLabel(cl, i, "ensures"), t, cl.Src, props)
+				cp := props
+				if len(cl.Props) > 0 {
+					cp = cl.Props
+				}
+				c.oblige(q, "post", clauseLabel(cl, i, "ensures"), t, cl.Src, cp)
+				c.obs[len(c.obs)-1].Only = len(cl.Props) > 0
 			}
 		}
 		c.exitChecks(q, fc, env, &entryHeap, props, false)
@@ -192,6 +198,12 @@ func (e *Engine) VerifyFunc(fn *ssa.Function, mode string) *FuncReport {
 	rep.Trusted = sortedNotes(c.trusted)
 	rep.Defaults = sortedNotes(c.defaults)
 	rep.Aborted = c.aborted
+	for k, verified := range c.usedContracts {
+		if !verified {
+			rep.Unverified = append(rep.Unverified, k)
+		}
+	}
+	sort.Strings(rep.Unverified)
 	return rep
 }
 
@@ -274,6 +286,9 @@ func (c *FnCtx) runGhostAt(p *Path, at string) {
 		return
 	}
 	env := c.frameEnv(p, fr, nil)
+	if c.ghostRet != nil {
+		env["ret"] = *c.ghostRet
+	}
 	c.runGhost(p, fr.fc, at, env, nil)
 }
 
@@ -285,6 +300,9 @@ func (c *FnCtx) ghostAssign(p *Path, ec *EvalCtx, lhs Expr, rhs Val, cond string
 				key := "$g:" + l.Name
 				arr := c.heapGet(&p.heap, key, g.Sort)
 				nv := rhs.T
+				if rhs.K == KIface {
+					nv = rhs.IVal
+				}
 				if cond != "true" {
 					nv = fmt.Sprintf("(ite %s %s (select %s 0))", cond, rhs.T, arr)
 				}
@@ -301,6 +319,10 @@ func (c *FnCtx) ghostAssign(p *Path, ec *EvalCtx, lhs Expr, rhs Val, cond string
 			et := derefType(x.Typ)
 			if g := ec.ghostField(typeKey(et), l.F); g != nil {
 				key, ref, srt = c.addrKey(x)+".$"+l.F, x.T, g.Sort
+			}
+		case KMap:
+			if g := ec.ghostField(typeKey(x.Typ), l.F); g != nil {
+				key, ref, srt = typeKey(x.Typ)+".$"+l.F, x.T, g.Sort
 			}
 		case KIface:
 			if g := ec.ghostField(typeKey(x.Typ), l.F); g != nil {
